@@ -148,7 +148,7 @@ def coq_eval_files(prop, files, timeout=1200):
     while pending or running:
         while pending and len(running) < NCPU:
             f = pending.pop(0)
-            p = subprocess.Popen(['timeout', str(timeout), 'coqc'] + COQ_FLAGS + [f], cwd=COQ,
+            p = subprocess.Popen(['timeout', str(timeout), 'coqc', '-noglob'] + COQ_FLAGS + [f], cwd=COQ,
                                  stdout=subprocess.PIPE, stderr=subprocess.STDOUT, text=True,
                                  errors='replace', env=env)
             running.append((f, p))
@@ -191,7 +191,7 @@ def cstr(s):
     b = s.encode('utf-8')
     if all(32 <= c < 127 and c != 34 for c in b):
         return '"%s"' % s
-    return '(bs [%s])' % ';'.join(str(c) for c in b)
+    return '(bs [%s]%%N)' % ';'.join(str(c) for c in b)
 
 
 def copt(x, f):
